@@ -695,6 +695,8 @@ var c04directed = []struct{ src, want string }{
 	// Go integers beyond 2^53 (ids, nanosecond timestamps) combine integrally: no detour through float64
 	{`{{ big % i2 }}|{{ big / i2 }}|{{ big + i2 }}|{{ big - i7 }}|{{ big * i2 }}|{{ nanos % sec }}|{{ -big / i2 }}|{{ -i7 / i2 }}|{{ nanos / sec }}|{{ big % big1 }}`,
 		"1|4503599627370496|9007199254740995|9007199254740986|18014398509481986|123456789|-4503599627370496|-3|1700000000|9007199254740993"},
+	// every numeric literal is a float, also the neutral ones: x*1 and x/1 make the operation floating-point
+	{`{{ i7 * 1 / i2 }}|{{ i7 * 1.0 / i2 }}|{{ i7 / 1 / i2 }}|{{ 1 * i7 / i2 }}|{{ i7 * 1 / i2 * i2 }}|{{ (i7 + 0) / i2 }}|{{ (i7 - 0.0) / i2 }}|{{ i7 / i2 * 1 }}|{{ im7 / 1.0 / i2 }}`, "3.5|3.5|3.5|3.5|7|3.5|3.5|3|-3.5"},
 	{`{{ big == big1 }}|{{ big < big1 }}|{{ big1 > big }}|{{ big != big1 }}|{{ big1 - big }}|{{ (big1 - big) * i7 % i2 }}`, "false|true|true|true|1|1"},
 }
 
@@ -817,7 +819,7 @@ func init() {
 		Technique: "typed reference evaluator and probe call log over generated expression trees, each rendered in four surface forms (minimal parentheses, no spaces, and/or/not, redundant parentheses)",
 		Rule: "type-directed random expression trees (depth <=5) over float literals, Go ints of several widths (incl. int8, int64, uint16), float32/64, strings, bools, calls, index expressions, unary minus, !, * / %, + -, relational, equality, && ||, ?:; printed with only the parentheses the documented ladder requires; " +
 			"oracle: rendered value equals the model's (ints and floats compared numerically and two Go ints must render integrally; strings/bools byte-exact), identical across the four surface forms, and the log of side-effecting probe operands equals the model's need-only evaluation order; " +
-			"8 directed cases pin the documented examples ((a)-1, f(x)-1, s[0]-1, a*-1, truncating / and %, negative non-integral float comparisons, right-nested ?:, integers beyond 2^53 in % / + - * and comparisons); cases the statement does not type (% with non-integral operands, int==non-integral float, division by zero, mixed-kind equality) are discarded and counted; " +
+			"9 directed cases pin the documented examples ((a)-1, f(x)-1, s[0]-1, a*-1, truncating / and %, negative non-integral float comparisons, right-nested ?:, integers beyond 2^53 in % / + - * and comparisons); cases the statement does not type (% with non-integral operands, int==non-integral float, division by zero, mixed-kind equality) are discarded and counted; " +
 			"non-trivial = at least two operators; distinct by operator/operand-kind shape",
 		Assumptions: []string{"float results are produced by the same float64 operations in the same order, so they are compared with =="},
 		NCases:      c04n,
